@@ -782,7 +782,57 @@ def derivative_sign(r, atom, ranges):
 
 
 
-def piecewise_mismatch(leaves, pieces, var, extra=()):
+def normalise_constraints(cons, positive=(), nonneg=()):
+    """sign conditions made linear where that is sound: a denominator whose sign follows from the atoms declared positive / non-negative is
+    multiplied out, and positive atoms that divide every term of the numerator are divided out ((i - N) x e / t < 0 with e, t > 0 becomes
+    i - N < 0).  Conditions that cannot be simplified are returned unchanged (the feasibility test then ignores or relaxes them)."""
+    ranges = {}
+    for a in positive:
+        ranges[a] = Interval(0, INF, True, True)
+    for a in nonneg:
+        ranges.setdefault(a, Interval(0, INF, False, True))
+    flip = {"<": ">", "<=": ">=", ">": "<", ">=": "<=", "==": "==", "!=": "!="}
+    out = []
+    for r, op in cons:
+        if not isinstance(r, Rat):
+            out.append((r, op))
+            continue
+        if not r.d.is_const():
+            sd = _poly_sign(r.d, ranges)
+            if sd == "+":
+                r = Rat(r.n, Poly.const(1))
+            elif sd == "-":
+                r, op = Rat(r.n, Poly.const(1)), flip[op]
+            else:
+                out.append((r, op))
+                continue
+        n = r.n
+        changed = True
+        while changed:
+            changed = False
+            for a in positive:
+                if len(n.t) >= 2 and all(any(x == a for x, _ in m) for m in n.t):
+                    new = {}
+                    for m, c in n.t.items():
+                        mm = tuple((x, e_ - 1) if x == a else (x, e_) for x, e_ in m)
+                        mm = tuple((x, e_) for x, e_ in mm if e_ > 0)
+                        new[mm] = new.get(mm, Fraction(0)) + c
+                    n = Poly(new)
+                    changed = True
+        out.append((Rat(n, r.d if r.d.is_const() else Poly.const(1)), op))
+    return out
+
+
+def _poly_sign(p, ranges):
+    iv = poly_interval(p, ranges.get)
+    if iv.lo > 0 or (iv.lo == 0 and iv.lo_open):
+        return "+"
+    if iv.hi < 0 or (iv.hi == 0 and iv.hi_open):
+        return "-"
+    return None
+
+
+def piecewise_mismatch(leaves, pieces, var, extra=(), positive=(), nonneg=()):
     """compare an evaluated piecewise function of `var` with a specified one.
     leaves: [(constraints, value Rat)] - the conditions each path of the evaluation met and the value it produced;
     pieces: [(lo, hi, value Rat)] - the specification on lo <= var <= hi (None = unbounded); adjacent pieces agree at their common end.
@@ -791,7 +841,7 @@ def piecewise_mismatch(leaves, pieces, var, extra=()):
     -> None if everything matches, else a text describing the first mismatch"""
     v = Rat.atom(var) if not isinstance(var, Rat) else var
     for cons, val in leaves:
-        cons = list(cons) + list(extra)
+        cons = normalise_constraints(list(cons) + list(extra), positive, nonneg)
         if not feasible(cons):
             continue
         hit = False
